@@ -46,6 +46,8 @@ def gen_script(W, method):
     s["block_size"] = W.choice([32768, 100])
     s["file_offset"] = W.choice([0, 0, 3, 50, 100000])
     s["exc_before_head"] = W.chance(0.06)
+    # storage fault: a seekable file loses its tail after the server has measured it
+    s["file_shrinks"] = W.choice([0, 1, 300], p0=0.85)
     return s
 
 
@@ -70,6 +72,9 @@ def gen(W):
         reqs.append(q)
     sc["reqs"] = reqs
     sc["cut"] = W.draw(300)
+    # half-close: the client shuts down its sending side after the last request and keeps reading (only
+    # without lookahead, where the server meets the EOF after everything was answered and sent)
+    sc["halfclose"] = W.chance(0.15) and sc["lookahead"] == 0
     sc["sched"], sc["trace"] = common.draw_sched(W, walk_p=0.3)
     return sc
 
@@ -117,6 +122,13 @@ def make_script(i, s, method):
         if cl is not None:
             cl = {"exact": len(body), "larger": len(body) + 11, "smaller": max(0, len(body) - 5)}[s["cl"]]
             script["cl"] = cl
+    if s.get("file_shrinks") and script["kind"] == "file" and s["cl"] in ("exact", "none") and method != "HEAD" and len(body) > 0 \
+            and s["status"][:3] not in ("204", "304"):
+        # the response is announced with the measured length and the file then delivers less: "too few bytes"
+        n = min(s["file_shrinks"], len(body))
+        script["file_shrinks"] = n
+        cl = len(body)
+        body = body[:len(body) - n]
     return script, body, cl, hdrs
 
 
@@ -149,6 +161,8 @@ def run_one(tapes, tier, scenario=None):
     sim.build(app)
     cut = sc["cut"] % max(1, len(stream))
     steps = [("send", stream[:cut]), ("sleep", 0.0005), ("send", stream[cut:])] if cut else [("send", stream)]
+    if sc.get("halfclose"):
+        steps.append(("fin",))
     sim.add_client(steps, cid=0)
     sim.run()
 
